@@ -6,7 +6,7 @@ from harness.corpus import accepted
 from harness.drive import call_parser
 from harness.rewrite_driver import Recorder, corrupt_first, family_texts, parse_inputs
 
-FAMS = ['funs', 'incl', 'quants', 'slots', 'bool1w', 'num1w', 'alias', 'cmp11', 'foldidx', 'cancel', 'resolve', 'negbool', 'capture', 'powpow']
+FAMS = ['funs', 'incl', 'quants', 'slots', 'bool1w', 'num1w', 'alias', 'cmp11', 'foldidx', 'cancel', 'resolve', 'negbool', 'capture', 'powpow', 'mixin']
 TOTALITY = ('Raises:', 'SameKind', 'SameType', 'NonEmptyList', 'ValueErrorOnlyIfUnsatisfiable', 'TypeErrorOnlyOnCoincidenceClash')
 
 
